@@ -85,6 +85,16 @@ def obligations(tier):
                              'append to Unit.Translation) of the object still held; mv, dv in N',
                       claim='the MDIB descriptor shares no member with the handed-out descriptor, the written entity or the published '
                             'result; the published descriptor (exactly one per handle) keeps the committed value'))
+    # history independence: aborted transaction, then an ordinary commit, compared with the commit alone on a twin MDIB
+    FW = ['metric_update', 'context_new_state', 'descriptor_update', 'descriptor_create', 'context_update']
+    pairs = [(k, f) for k in range(8) for f in range(5)] if tier != 'quick' else [(0, 0), (6, 3), (7, 1)]
+    for kind, follow in pairs:
+        obs.append(Ob(f'C03.aborted_then_commit.{AK[kind]}.{FW[follow]}', 'harness.C03', 'aborted_then_commit',
+                      bind={'kind': kind, 'follow': follow}, timeout=max(t, 200), functions=F, stubs=STUBS,
+                      bounds='aborted body with symbolic crash point 0..3, then one committed transaction; twin MDIB runs the committed '
+                             'transaction alone; symbolic mv, sv, str <= 2, list members empty or filled',
+                      claim='snapshot (all nesting depths), version counters, remembered versions of removed objects and number of '
+                            'reports after abort + commit equal those of the commit alone'))
     return obs
 
 
@@ -93,7 +103,9 @@ MANIFEST_ENTRY = {
     'technique': 'bounded symbolic execution (CrossHair/z3) of the real transaction manager with symbolic crash point, symbolic nested '
                  'values and version counters; full-snapshot equality oracle',
     'text': 'All paths of 34 transaction shapes (8 aborted bodies x 4 crash points, 9 rejected calls, 7 rejected-and-handled calls, 3 commit '
-            'failures, 4 post-commit write patterns, 3 update() patterns) are explored for all string values <= 3 chars and all version counters.',
+            'failures, 4 post-commit write patterns, 3 update() patterns) are explored for all string values <= 3 chars and all version counters; '
+            'thorough adds history independence: each of the 8 aborted bodies x 4 crash points followed by each of 5 committed transactions '
+            'equals the committed transaction alone on a twin MDIB (quick: 3 of the 40 pairs).',
     'note': 'Small concrete MDIB (15 descriptors, 2 context states); crash points are between API calls of a 3-step body; observers other '
             'than the provider report hook are outside.',
 }
